@@ -466,6 +466,10 @@ func (tic *TermInCommittee) HandlePrepare(pm *interfaces.PrepareMessage) {
 		tic.logger.Info("LHMSG RECEIVED PREPARE IGNORE - verification failed for Prepare block-height=%v view=%d block-hash=%s err=%v", header.BlockHeight(), header.View(), header.BlockHash(), err)
 		return
 	}
+	if !proofsvalidator.IsInMembers(tic.committeeMembers, sender.MemberId()) {
+		tic.logger.Info("LHMSG RECEIVED PREPARE IGNORE - sender %s is not a member of the committee", Str(sender.MemberId()))
+		return
+	}
 	if header.View() < tic.State.View() {
 		tic.logger.Debug("LHMSG RECEIVED PREPARE IGNORE - prepare view %v is less than current term's view %v", header.View(), tic.State.View())
 		return
@@ -550,6 +554,10 @@ func (tic *TermInCommittee) HandleCommit(cm *interfaces.CommitMessage) {
 		tic.logger.Info("LHMSG RECEIVED COMMIT IGNORE - verification failed for Commit block-height=%d view=%d block-hash=%s err=%v", header.BlockHeight(), header.View(), header.BlockHash(), err)
 		return
 	}
+	if !proofsvalidator.IsInMembers(tic.committeeMembers, sender.MemberId()) {
+		tic.logger.Info("LHMSG RECEIVED COMMIT IGNORE - sender %s is not a member of the committee", Str(sender.MemberId()))
+		return
+	}
 	tic.logger.Debug("LHMSG RECEIVED COMMIT STORE")
 	tic.storage.StoreCommit(cm)
 	tic.checkCommitted(header.BlockHeight(), header.View(), header.BlockHash())
@@ -627,6 +635,11 @@ func (tic *TermInCommittee) HandleViewChange(vcm *interfaces.ViewChangeMessage) 
 
 	if err := tic.isViewChangeValid(tic.myMemberId, tic.State.View(), vcm.Content()); err != nil {
 		tic.logger.Info("LHMSG RECEIVED VIEW_CHANGE IGNORE - invalid VIEW_CHANGE: %s", err)
+		return
+	}
+
+	if !proofsvalidator.IsInMembers(tic.committeeMembers, vcm.SenderMemberId()) {
+		tic.logger.Info("LHMSG RECEIVED VIEW_CHANGE IGNORE - sender %s is not a member of the committee", Str(vcm.SenderMemberId()))
 		return
 	}
 
